@@ -21,7 +21,8 @@ nano_virt and hand-built modules that need VM_MAX_FRAMES-3 .. +2 frames through 
 construct separately (CALL, function values / CALL_INDIRECT, CLOSURE_CALL, CALL_MODULE, map / filter /
 reduce, closures, __init__, host re-entry), that fill the operand stack to capacity-2 .. capacity+1
 before each instruction that can deepen it (every doubling of the tier), that touch globals / locals
-at their last and first-invalid index, and that nest values around the printer's depth limit.  Each
+at their last and first-invalid index, and that nest values around the printer's depth limit and on a
+ladder up to 100000 (thorough 10^6) levels, where the VM declares no limit and must not have one.  Each
 run is judged against a plain Python model of the program: it completes with the model's output
 (mandatory below the limit) or stops with the documented error of that limit after the model's
 output prefix; state invariants (frame_count, top frame, ip range, stack_size) are checked at every
